@@ -40,6 +40,13 @@ Theorem C08_fetch_keeps_complete :
 Proof. exact fetch_keeps_complete. Qed.
 Print Assumptions C08_fetch_keeps_complete.
 
+Theorem C08_fetch_all_keeps_complete :
+  forall U c F T out n T', wf_univ U = true ->
+  fetch_all U c F T = (out, n, T') -> ext c = true -> closedb U (vis_of F T) = true ->
+  local_complete U T -> local_complete U T'.
+Proof. exact fetch_all_keeps_complete. Qed.
+Print Assumptions C08_fetch_all_keeps_complete.
+
 (* the invariant is what makes the branch readable: every revision of the stacked
    repository can be reconstructed from it plus the fallback *)
 Theorem C08_complete_implies_tip_readable :
